@@ -97,6 +97,18 @@ Proof. exact pulse_rename_covers. Qed.
 Example C11_pulse_nonvacuous : In ("td", "delay") pulse_export /\ List.length pulse_fields = 7%nat.
 Proof. vm_compute. split; [tauto | reflexivity]. Qed.
 
+(* Primitive parameter classes: for EVERY primitive, the exported parameter names are distinct, the fields are distinct,
+   and each field is exported exactly under the VLSIR name the importer reads it from (the table-level half of the
+   primitive-parameter round trip; the list-level half is checked by the correspondence run only). *)
+Theorem C11_prim_schemas_coherent :
+  forallb (fun e : string * string * list (string * string * bool * bool) =>
+     match schema_of (fst (fst e)) with Ok sc => schema_coherent sc | Error _ => false end) prim_fields = true.
+Proof. exact prim_schemas_coherent. Qed.
+Print Assumptions C11_prim_schemas_coherent.
+
+Example C11_prim_schemas_nonvacuous : List.length prim_fields = 21%nat.
+Proof. reflexivity. Qed.
+
 (* Port directions and spice types survive export + import, in both directions, for every member. *)
 Theorem C11_dir_roundtrip : forall d, In d portdir_names -> exists v, export_dir d = Ok v /\ import_dir v = Ok d.
 Proof. exact dir_roundtrip. Qed.
